@@ -87,9 +87,10 @@ class DefUse(object):
         got_entry = False
         while stack:
             (n, lab) = stack.pop()
-            if (n, lab is not None and lab in ("exc", "raise")) in seen:
+            key = (n, "exc" if lab in ("exc", "raise") else "done" if lab == "done" else "normal")
+            if key in seen:
                 continue
-            seen.add((n, lab is not None and lab in ("exc", "raise")))
+            seen.add(key)
             node = cfg.nodes[n]
             is_def = n in dmap
             if is_def and lab not in ("exc", "raise") and not (node.kind == "for" and lab == "done"):
